@@ -216,6 +216,24 @@ theorem drain_forgotten (hc : CfgOk cfg) (env : Env) (k : Nat) (w : World) (h : 
   | .abort, hs => exact hs.elim
   | .fault _, hs => exact hs.elim
 
+/-- HashSet runs the same code: its `retain` / `extract_if` / `drain` ARE the HashMap functions, on the
+    set's view of the environment (`Set.envOf`: the predicate gets `&T` and cannot write, so the
+    payload it "writes" is the old one). Every theorem above quantifies over all environments, hence
+    applies verbatim. (HashTable's calls are dispatched to the same `Map.*` functions by the driver,
+    with `Table.envFor`.) -/
+theorem set_shares_code (env : Env) (k : Nat) (forget : Bool) (w : World) :
+    Set.retain cfg env w = Map.retain cfg (Set.envOf env) w ∧
+    Set.extractIf cfg env k w = Map.extractIf cfg (Set.envOf env) k w ∧
+    Set.drain cfg env k forget w = Map.drain cfg env k forget w ∧
+    (∀ c e b nv, (Set.envOf env).pred c e = some (b, nv) → nv = e.v) := by
+  refine ⟨rfl, rfl, rfl, ?_⟩
+  intro c e b nv h
+  simp only [Set.envOf] at h
+  split at h
+  · simp only [Option.some.injEq, Prod.mk.injEq] at h
+    exact h.2.symm
+  · cases h
+
 #print axioms retain_once_per_element
 #print axioms retain_any_predicate_subset
 #print axioms retain_panic_safe
@@ -223,5 +241,6 @@ theorem drain_forgotten (hc : CfgOk cfg) (env : Env) (k : Nat) (w : World) (h : 
 #print axioms extract_if_early_drop
 #print axioms drain_every_cut_point
 #print axioms drain_forgotten
+#print axioms set_shares_code
 
 end Hb.C10
